@@ -138,7 +138,7 @@ def run(tier):
     tables = []
     for n in NAMES:
         tables.append({n: TARGETS[len(tables) % 3]})
-    for _ in range(6 if tier == "quick" else 40):
+    for _ in range(6 if tier == "quick" else 150):
         k = rnd.randint(2, 3)
         tables.append({n: rnd.choice(TARGETS) for n in rnd.sample(NAMES, k)})
     for table in tables:
